@@ -22,3 +22,33 @@ End SkipLoop.
 Lemma pull_skip old f i c :
   pull old (S f) (Skip i c) = (i1 <- skip_loop (pull old f) c i ;; '(o, i2) <- pull old f i1 ;; Some (o, Skip i2 0)).
 Proof. reflexivity. Qed.
+
+(* Why "unroll once, summarise the rest by the model's loop function" is enough.  A Rust `while c { body }` run from state s
+   either diverges or stops after finitely many iterations in the state [run fuel s] computes; if a function F (the model's
+   loop function read as a state transformer, None = panic) satisfies the one-iteration equations that the generated step
+   lemmas establish - F s = F (body s) where the condition holds and the body does not panic, F s = Some s where it does
+   not hold - then whenever the loop stops, it stops in the state F predicts (partial correctness by induction on the number
+   of iterations; termination of the real loops is the structural recursion of the model functions on the deque / counter). *)
+Section LoopPartialCorrectness.
+Variable S : Type.
+Variable cond : S -> bool.
+Variable body : S -> option S.
+Variable F : S -> option S.
+Hypothesis step_true : forall s s', cond s = true -> body s = Some s' -> F s = F s'.
+Hypothesis step_panic : forall s, cond s = true -> body s = None -> F s = None.
+Hypothesis step_false : forall s, cond s = false -> F s = Some s.
+Fixpoint run (fuel : nat) (s : S) : option (option S) :=      (* None = still running; Some None = panicked *)
+  match fuel with
+  | O => None
+  | Datatypes.S f => if cond s then match body s with Some s' => run f s' | None => Some None end else Some (Some s)
+  end.
+Theorem loop_partial_correctness : forall fuel s r, run fuel s = Some r -> F s = r.
+Proof.
+  induction fuel as [|f IH]; intros s r H; [discriminate H|]. cbn [run] in H.
+  destruct (cond s) eqn:C.
+  - destruct (body s) as [s'|] eqn:B.
+    + rewrite (step_true s s' C B). exact (IH s' r H).
+    + injection H as <-. exact (step_panic s C B).
+  - injection H as <-. exact (step_false s C).
+Qed.
+End LoopPartialCorrectness.
